@@ -40,7 +40,7 @@ Qed.
 
 (* ---- dot product ---- *)
 Lemma dot_p_release : forall xs cs acc, in_s 64 acc = true ->
-  dot_p Release xs cs acc = Ok (wrap_s 64 (acc + dot xs cs)).
+  dot_p xs cs acc = Ok (wrap_s 64 (acc + dot xs cs)).
 Proof.
   induction xs as [|x xs IH]; intros [|c cs] acc Ha; cbn [dot_p dot];
     try (rewrite Z.add_0_r, wrap_s_id by (auto; lia); reflexivity).
@@ -100,7 +100,7 @@ Lemma predict_release w coeffs shift : (w = 32 \/ w = 64) -> 0 <= shift < 64 ->
   forall todo done_rev,
     Forall small_x done_rev ->
     Forall (fun v => in_s w v = true /\ small_x v) (pz_tail coeffs shift done_rev todo) ->
-    predict Release w coeffs shift done_rev todo = Ok (predict_z coeffs shift done_rev todo).
+    predict w coeffs shift done_rev todo = Ok (predict_z coeffs shift done_rev todo).
 Proof.
   intros Hw Hs Hc HL. induction todo as [|r rest IH]; intros done_rev Hd Hout; cbn [predict predict_z]; [reflexivity|].
   rewrite dot_p_release by reflexivity. cbn [bind]. rewrite Z.add_0_l.
@@ -108,19 +108,13 @@ Proof.
   rewrite wrap_s_id by (auto; lia).
   unfold shr_s. destruct (Z.ltb_spec shift 64) as [_|]; [|lia]. cbn [bind].
   assert (Hw0 : 0 < w) by (destruct Hw; lia).
-  rewrite arith_s_release_eq by exact Hw0. cbn [bind].
   cbn [pz_tail] in Hout. cbv zeta in Hout.
   set (v := r + dot done_rev coeffs / 2 ^ shift) in *.
   inversion Hout as [|? ? [Hv1 Hv2] Hrest]; subst.
-  assert (Ev : wrap_s w (r + from_i64 w (dot done_rev coeffs / 2 ^ shift)) = v).
-  { rewrite <- (wrap_s_id w v Hw0 Hv1). unfold v. rewrite <- wrap_s_add_r by exact Hw0.
-    rewrite from_i64_wrap; auto.
-    - rewrite wrap_s_add_r by exact Hw0. reflexivity.
-    - apply in_s_spec in Hdot. apply in_s_spec.
-      assert (0 < 2 ^ shift) by (apply Z.pow_pos_nonneg; lia).
-      assert (0 < 2 ^ (64 - 1)) by (apply Z.pow_pos_nonneg; lia).
-      split.
-      + apply Z.div_le_lower_bound; [lia|]. nia.
-      + apply Z.div_lt_upper_bound; [lia|]. nia. }
-  rewrite Ev. apply IH; [constructor; assumption|exact Hrest].
+  assert (Ev : from_i64 w (wrap_s 64 v) = v).
+  { assert (Hv64 : in_s 64 v = true) by (destruct Hw as [-> | ->]; [eapply in_s_mono; [|exact Hv1]; lia|exact Hv1]).
+    rewrite wrap_s_id by (auto; lia).
+    destruct Hw as [-> | ->]; unfold from_i64; cbn [Z.eqb]; [|reflexivity].
+    unfold as_i32. apply wrap_s_id; [lia|exact Hv1]. }
+  cbv zeta. rewrite Ev. apply IH; [constructor; assumption|exact Hrest].
 Qed.
